@@ -321,8 +321,9 @@ def history_search(ctx: Ctx) -> None:
             # every build reports a missing (misspelled stdlib) import; earlier builds use other options
             with open(os.path.join(root, "zz_extra.py"), "w") as f:
                 f.write("import tomlib\nimport dist_utils\nimport asyncoi\nfrom typing import Optional\ndef f(x: Optional[int]) -> int:\n    return x\n")
-            extra = [] if last else rng.choice([["--python-version", "3.10"], ["--python-version", "3.14"], ["--platform", "win32"],
-                                                ["--no-strict-optional"], ["--strict"], []])
+            extra = [] if last else (rng.choice([["--python-version", "3.10"], ["--python-version", "3.14"]]) if k == 0 else
+                                     rng.choice([["--python-version", "3.10"], ["--python-version", "3.14"], ["--platform", "win32"],
+                                                 ["--no-strict-optional"], ["--strict"], []]))
             jobs.append({"cwd": root, "args": ["--cache-dir", os.path.join(base, f"cc{k}"), "--no-error-summary", "--no-color-output",
                                                "--no-incremental"] + extra + ["."]})
         # the build under test is the last one; run it alone in a fresh interpreter too
